@@ -122,6 +122,7 @@ def _read_rows(path, run=None):
 class _World:
     def __init__(self):
         self.events = []        # ("call"|"tx"|"done", task, k)
+        self.stray = []         # requests written to the transport outside ECU._request (no row can exist for them)
         self.calls = {}         # (task, k) -> observation
         self.queues = {t: [] for t in TASKS}     # plans not yet started, per task
         self.cur = {}           # task -> call observation in progress
@@ -163,7 +164,8 @@ def _timed_transport(env, world):
                 w = self.w
                 o = w.cur.get(w.task())
                 if o is None:
-                    raise AssertionError("write outside a call")
+                    w.stray.append(bytes(data).hex())
+                    return len(data)
                 i = len(o["writes"])
                 o["writes"].append(bytes(data).hex())
                 if i == 0:
@@ -381,7 +383,7 @@ def run_multi(case):
         o["reply"] = o["reply"].hex() if o["reply"] is not None else None
         calls.append(o)
     warnings = [m for (lvl, m) in rec_e.msgs + rec_h.msgs]
-    return {"events": [list(e) for e in world.events], "calls": calls, "rows": rows, "warnings": warnings, "end": end,
+    return {"stray": list(getattr(world, "stray", [])), "events": [list(e) for e in world.events], "calls": calls, "rows": rows, "warnings": warnings, "end": end,
             "injected": out["faults"].injected if out["faults"] else 0,
             "obs": [{"out": o.get("out", "none"), "req_cls": o["req_cls"], "resp_cls": o.get("resp_cls", "none")} for o in calls]}
 
@@ -402,6 +404,10 @@ def judge_multi(res, case):
         return ("multi:run-ended:" + end.split(":")[0], "run ended with " + res["end"])
     if "connection-left-open" in res["end"]:
         return ("multi:connection-left-open", "disconnect() did not close the database")
+    # every request the client puts on the wire goes through ECU._request (and so gets its row)
+    if res.get("stray"):
+        return ("multi:request-on-the-wire-without-row", f"{len(res['stray'])} request(s) were written to the transport outside ECU._request - e.g. "
+                                                         f"{res['stray'][0]} - so no scan_result row exists for them")
     # mutual exclusion on the wire
     for o in res["calls"]:
         if o.get("others_in_flight"):
@@ -1235,7 +1241,7 @@ def run_life(case):
         o["reply"] = o["reply"].hex() if o["reply"] is not None else None
         calls.append(o)
     warnings = [m for (lvl, m) in rec_e.msgs + rec_h.msgs + rec_u.msgs]
-    return {"events": [list(e) for e in world.events], "calls": calls, "rows": rows, "warnings": warnings, "end": end,
+    return {"stray": list(getattr(world, "stray", [])), "events": [list(e) for e in world.events], "calls": calls, "rows": rows, "warnings": warnings, "end": end,
             "injected": 0, "flag_events": "".join(world.flag_events), "api_order": world.api_order, "tables": tables, "transitions": world.transitions,
             "notes": world.notes,
             "obs": [{"out": o.get("out", "none"), "req_cls": o["req_cls"], "resp_cls": o.get("resp_cls", "none")} for o in calls]}
